@@ -373,7 +373,7 @@ def builder(chk, P):
 
 def documented(chk, P):
     repo = P.repo
-    txt = open(os.path.join(repo, "docs", "reference", "potential_modifiers.rst"), encoding="utf-8").read()
+    txt = F.read_rst(os.path.join(repo, "docs", "reference", "potential_modifiers.rst"))
     doc_mods = set(re.findall(r"^\.\. _modifier-(\w+):", txt, re.M))
     if len(doc_mods) < 5:
         raise AnalysisError("the layout of docs/reference/potential_modifiers.rst is not recognised (%d '.. _modifier-NAME:' labels found)" % len(doc_mods))
@@ -385,7 +385,7 @@ def documented(chk, P):
            expect=sorted(doc_mods), key="C09.O8|modifiers")
     for name, comb in (("sum", "plus"), ("product", "product"), ("pow", "pow")):
         pass
-    txt2 = open(os.path.join(repo, "docs", "reference", "potable_input.rst"), encoding="utf-8").read()
+    txt2 = F.read_rst(os.path.join(repo, "docs", "reference", "potable_input.rst"))
     if "ref-potable-input-pymath" not in txt2 or "ref-potable-input-tabulation:" not in txt2:
         raise AnalysisError("the layout of docs/reference/potable_input.rst is not recognised (pymath section labels)")
     sect = txt2[txt2.index("ref-potable-input-pymath"):txt2.index("ref-potable-input-tabulation:")]
